@@ -2,6 +2,7 @@ import Driver.Util
 import ESV.Cache.Model
 import ESV.Cache.Threads
 import ESV.Cache.Objects
+import ESV.Cache.Shared
 open Lean Drv ESV ESV.Cache
 
 /-
@@ -196,6 +197,8 @@ def handle (op : String) (j : Json) : R Json := do
       ("params", jList pyParamTo o'.params),
       ("same_meaning", .bool (decide (o'.meaning = o.meaning))),
       ("py_eq", .bool (o'.pyEq o))])
+  | "cache.shared" =>
+    pure (Json.mkObj [("shared", jList (fun (p : String × String) => Json.arr #[.str p.1, .str p.2]) modelledShared)])
   | "cache.compiler" =>
     pure (Json.mkObj [
       ("reset", jList jStr Comp.resetAttrs), ("late", jList jStr Comp.lateAttrs), ("ctor", jList jStr Comp.ctorAttrs)])
